@@ -25,9 +25,17 @@ def translators(repo):
     """source-level tie of the vector kernels: Generated/SimdAst.lean is re-translated from clang's AST of sse.hpp /
     avx2.hpp on every run (tools/gen_simd_ast.py); the equalities with the hand-written kernel models
     (Proofs/SimdAstEq.lean) and the transported C05 lane theorems (Properties/C05Ast.lean) are then re-checked by
-    `lake build`.  C05Ast also states the add/sub kernels against the scalar functors re-translated by gen_ops_ast.py."""
+    `lake build`.  C05Ast also states the add/sub kernels against the scalar functors re-translated by gen_ops_ast.py.
+    LOOP STRUCTURE of the vector transforms: tools/gen_vloop_ast.py re-translates ntt_loop_sse_unrolled::run, ntt_loop_avx2_unrolled::run
+    and core::ntt of both vector builds (Generated/VLoopAst.lean: pointers as (array, offset), `degree` a parameter, calling the generated
+    kernels of SimdAst.lean on whole registers and the generated scalar block of NttAst.lean; index expressions run for every degree
+    2^3..2^15; probe compilations for the smallest accepted degree); it needs the scalar generators run first (gen_ntt_ast, gen_permut_ast,
+    gen_nttloop_ast: Generated/NttAst.lean, PermutAst.lean, NttLoopAst.lean).  Proofs/VLoopAstEq.lean + Properties/C05LoopAst.lean: generated
+    vector loops = scalar model = generated scalar loop = hand model of the vector loops, every degree; end-to-end C05 for the transform."""
     out = {}
-    for name, keep_out in (("gen_ops_ast", ("node_kinds",)), ("gen_simd_ast", ("node_kinds",))):
+    for name, keep_out in (("gen_ops_ast", ("node_kinds",)), ("gen_simd_ast", ("node_kinds",)), ("gen_ntt_ast", ("node_kinds",)),
+                           ("gen_permut_ast", ("node_kinds",)), ("gen_nttloop_ast", ("node_kinds",)),
+                           ("gen_vloop_ast", ("node_kinds", "probe_diagnostics", "shift_sites"))):
         r = cl.run(["python3", os.path.join(cl.HERE, name + ".py"), "--repo", repo])
         info = {"ok": r.returncode == 0}
         if r.returncode != 0:
@@ -208,6 +216,7 @@ PROP = {
         "x86 SSE4.2/AVX2 instructions behave on other CPUs as on the CPU the check runs on (each modelled intrinsic is executed and compared with its Lean model on every run)",
         "alignment of vector loads/stores and the compiler's instruction selection are not modelled (sanitizer builds of the simd/ops harnesses would trap on misaligned or out-of-bounds access)",
         "source-level tie of the vector kernels: clang++-14's typed AST (-ast-dump=json) of sse.hpp/avx2.hpp in the two configurations (-DNTT_SSE -msse4.2, -DNTT_AVX2 -mavx2), tools/gen_simd_ast.py's traversal and its intrinsic-NAME -> model table (`_mm[256]_…` header functions by name, `__builtin_ia32_…` builtins of the macro intrinsics by name + constant immediates; casts between vector types of equal size read as bit-preserving), the scalar node semantics of Model/CSem.lean + Model/SimdView.lean for the `set1` arguments, and the intrinsic models of Model/Simd.lean (each executed on the CPU and compared on every run by harness/simd.cpp); memory (loads before stores, distinct pointers) of ntt_loop_body::operator() is abstracted to registers in / registers out",
+        "source-level tie of the vector LOOP structure (tools/gen_vloop_ast.py on top of gen_nttloop_ast.py's machinery): lean/NflVerif/Model/CSemVLoop.lean (a whole-register load / store = L consecutive cells, lane 0 = lowest address; ALIGNMENT not modelled, only checked on the translator's concrete runs relative to the array bases), CSemLoop.lean (pointer = (array, offset), out-of-range read = 0 / write dropped — excluded by the concrete run of the index expressions for the degrees 2^3..2^15 only), distinct pointer parameters are distinct arrays, the by-name contract with gen_simd_ast.py's kernels (parameter list and lane count compared textually with Generated/SimdAst.lean; exactly one whole-register load per pointer parameter and one store per non-const one, read off operator()), sizeof(T) from the C type, the probe compilations for the smallest accepted degree; core::inv_ntt and the element-wise twist of the vector builds are not re-translated",
         "mode reconciliation of mixed expression trees (which sub-expression is evaluated by which backend) is C07's concern; here every functor and the transform are compared per backend",
     ],
     "assumptions": ["16/32-bit limbs: p < 2^w for add/sub, 2p ≤ 2^w for butterflies/transforms (4p ≤ 2^w on every table row); Shoup kernels: lane hypotheses Shoup32Hyp/Shoup16Hyp/Muladd16Hyp, proved to hold for y<p, y'=compute_shoup(y), rop<p and any word x",
